@@ -4,6 +4,7 @@ import (
 	"fmt"
 	"go/token"
 	"go/types"
+	"sort"
 	"strings"
 
 	"golang.org/x/tools/go/ssa"
@@ -29,10 +30,10 @@ func init() {
 		explanation: "Decided (structural, for every dataset, expression and group-by list): " +
 			"C02.alias — in the evaluation code no append inside a loop uses a base slice that is the same in every iteration (sibling groups would share one backing array once the field list has spare capacity, i.e. from the 4th group-by column on); " +
 			"C02.sorted — the per-column value list built from the schema's map is sorted ascending by value before it is used (sort.Slice / slices.SortFunc with an ascending string comparison, or built by walking slices.Sorted over the map's keys) and not reversed afterwards; " +
-			"C02.unknowncol — an unknown group-by column yields an error (not a silently skipped column); " +
+			"C02.unknowncol — an unknown group-by column yields an error (not a silently skipped column), and Execute never reports success without having walked the whole group-by list through the schema lookup (directly or in a per-column helper; a loop that can be left early towards a result does not count); " +
 			"C02.nonzero — a refined group is appended only on the branch where its bitmap's cardinality is known to be non-zero; " +
 			"C02.fresh — Execute keeps no resolved state in the Query (= C08.readonly), so a repeated execution does not duplicate columns; C02.inplace — no bitmap that is stored, preloaded, cached or an operand's result is modified in place while refining groups (= C03.pure); " +
-			"C02.fields — every group's field for a level is {Column: that level's column, Value: the value whose bitmap refined it}. " +
+			"C02.fields — every group's field for a level is {Column: that level's column, Value: the value whose bitmap refined it}, also when the refinement is split over helpers (level, column or value list passed as parameters; a list of candidate values that carry their pre-fetched bitmap, which must be a new list unless resolved lists cannot be shared between levels). " +
 			"NOT decided: exact counts and the exact tuple set (values); lexicographic order of the result list beyond each level being sorted (follows from nested iteration in sorted order).",
 		assumptions: []string{"roaring.And / GetCardinality are correct", "sort.Slice sorts by the given less function"},
 	})
@@ -505,55 +506,127 @@ func unknownColRule(c *Ctx, rule string, withCacheOrder bool) {
 // the error for an unknown column depend on the data.
 func groupByResolvedRule(c *Ctx, rule string, colsF *types.Var) {
 	ex := c.a.Execute
+	// the key is an element of a list of strings (the group-by list), not a field of an expression node. The lookup may
+	// live in a per-column helper (`idx.groupByColumn(colName)`): its key is then a parameter, which must be bound to such
+	// an element at every call of the helper.
+	var isListElem func(v ssa.Value, depth int) bool
+	isListElem = func(v ssa.Value, depth int) bool {
+		v = peel(v)
+		if ld, ok := v.(*ssa.UnOp); ok && ld.Op == token.MUL {
+			_, isElem := ld.X.(*ssa.IndexAddr)
+			return isElem
+		}
+		p, ok := v.(*ssa.Parameter)
+		if !ok || depth >= 2 {
+			return false
+		}
+		sites := staticCallSites(c, p.Parent())
+		for _, site := range sites {
+			if !isListElem(argFor(site, p.Parent(), p), depth+1) {
+				return false
+			}
+		}
+		return len(sites) > 0
+	}
 	isGB := func(i ssa.Instruction) bool {
 		lk, ok := i.(*ssa.Lookup)
 		if !ok || !lk.CommaOk || path(lk.X).lastField() != colsF {
 			return false
 		}
-		// the key is an element of a list of strings (the group-by list), not a field of an expression node
-		idx := lk.Index
-		if ld, ok := idx.(*ssa.UnOp); ok && ld.Op == token.MUL {
-			if _, ok := ld.X.(*ssa.IndexAddr); ok {
-				return true
+		return isListElem(lk.Index, 0)
+	}
+	// resolves: the instruction looks a listed column up, itself or in a helper it calls
+	resolves := func(i ssa.Instruction) bool {
+		if isGB(i) {
+			return true
+		}
+		if call, ok := i.(*ssa.Call); ok {
+			if h := calleeFunc(&call.Call); h != nil && c.w.inModule(h) && h != ex && h != i.Parent() {
+				return c.fc.mayContain(h, isGB, 2)
 			}
 		}
-		if _, ok := idx.(*ssa.Extract); ok { // range over a slice yields (index, element) through Next for strings only; keep for safety
-			return false
+		return false
+	}
+	// the loop over the group-by list: with an empty list its body never runs, and that is a complete resolution too.
+	// The loop must walk the whole list: it is left through its header (the list is exhausted) or towards an error
+	// return only. A `break` once no group is left, from which a result can still be returned, leaves the columns behind
+	// it unchecked — whether an unknown column is an error then depends on the data.
+	okReturn := func(i ssa.Instruction) bool {
+		ret, ok := i.(*ssa.Return)
+		return ok && !isRecoverBlockReturn(ret) && !isErrorReturn(i)
+	}
+	canReturnOKFrom := func(s *ssa.BasicBlock) bool {
+		seen := map[*ssa.BasicBlock]bool{s: true}
+		work := []*ssa.BasicBlock{s}
+		for len(work) > 0 {
+			b := work[0]
+			work = work[1:]
+			if okReturn(b.Instrs[len(b.Instrs)-1]) {
+				return true
+			}
+			for _, n := range b.Succs {
+				if !seen[n] {
+					seen[n] = true
+					work = append(work, n)
+				}
+			}
 		}
 		return false
 	}
 	inLoopHeaderOf := map[*ssa.BasicBlock]bool{}
-	for _, fn := range c.scope(ex, 2) {
+	inPartialLoop := map[*ssa.BasicBlock]bool{}
+	for _, fn := range c.scope(ex, 3) {
 		for _, l := range loopsOf(fn) {
 			has := false
 			for b := range l.blocks {
 				for _, ins := range b.Instrs {
-					if isGB(ins) {
+					if resolves(ins) {
 						has = true
 					}
 				}
 			}
-			if has {
+			if !has {
+				continue
+			}
+			whole := true
+			for b := range l.blocks {
+				for _, s := range b.Succs {
+					if !l.blocks[s] && b != l.header && canReturnOKFrom(s) {
+						whole = false
+					}
+				}
+			}
+			if whole {
 				inLoopHeaderOf[l.header] = true
+			} else {
+				for b := range l.blocks {
+					inPartialLoop[b] = true
+				}
 			}
 		}
 	}
 	direct := func(i ssa.Instruction) bool {
-		return isGB(i) || inLoopHeaderOf[i.Block()]
+		return (isGB(i) && !inPartialLoop[i.Block()]) || inLoopHeaderOf[i.Block()]
 	}
-	isEvent := func(i ssa.Instruction) bool {
+	// a call resolves the list if its callee does so on every path to a return that does not report an error
+	var isEventD func(i ssa.Instruction, depth int) bool
+	isEventD = func(i ssa.Instruction, depth int) bool {
 		if direct(i) {
 			return true
 		}
-		if call, ok := i.(*ssa.Call); ok {
-			if h := calleeFunc(&call.Call); h != nil && c.w.inModule(h) && h != ex {
-				return c.fc.mayContain(h, direct, 2)
+		if call, ok := i.(*ssa.Call); ok && depth > 0 {
+			h := calleeFunc(&call.Call)
+			if h == nil || !c.w.inModule(h) || h == ex || h == i.Parent() || h.Blocks == nil {
+				return false
 			}
+			inner := func(j ssa.Instruction) bool { return isEventD(j, depth-1) }
+			return c.fc.mayContain(h, direct, depth-1) && c.fc.pathAvoiding(h, nil, okReturn, inner) == nil
 		}
 		return false
 	}
+	isEvent := func(i ssa.Instruction) bool { return isEventD(i, 3) }
 	any := false
-	instrsOf(c.scope(ex, 2), func(i ssa.Instruction) {
+	instrsOf(c.scope(ex, 3), func(i ssa.Instruction) {
 		if isGB(i) {
 			any = true
 		}
@@ -909,68 +982,12 @@ func fieldsRule(c *Ctx, rule string) {
 		}
 		n++
 		key := safeFname(fn)
-		okF := true
-		why := ""
-		if f := srcField(colSrc); f == nil || f != c.a.LevelColF {
-			okF, why = false, "the field's column is not the group-by level's column"
-		}
-		// the value must come from the same groupByValue whose Idx was used for GetCol in this iteration
-		fv := srcField(valSrc)
-		if fv == nil || fv != c.a.ValValueF {
-			okF, why = false, "the field's value is not the group-by value being refined"
-		} else {
-			vroot := path(valSrc).Root
-			same := false
-			allInstrs(fn, func(i ssa.Instruction) {
-				call, ok := i.(*ssa.Call)
-				if !ok || !call.Call.IsInvoke() || call.Call.Method.Name() != getColName {
-					return
-				}
-				if fi := srcField(call.Call.Args[0]); fi != nil && fi == c.a.ValIdxF && path(call.Call.Args[0]).Root == vroot {
-					same = true
-				}
-			})
-			if !same {
-				okF, why = false, "the value named in the field is not the one whose bitmap refined the group"
-			}
-			// the column must belong to the level whose values are being iterated: v is an element of <level>.Values
-			if okF {
-				level := levelOfValue(vroot, c.a.LevelValsF)
-				if level == nil || path(colSrc).Root != level {
-					okF, why = false, "the field's column is taken from a different group-by level than the value"
-				}
-			}
-		}
+		okF, why := groupFieldOK(c, fn, colSrc, valSrc)
 		c.r.check(okF, rule, key, "field = {level's column, refining value}", "a group's field does not name the level's column and the value whose bitmap refined it: "+why, c.w.ipos(at))
 	}
 	if n == 0 {
 		c.r.undecided(rule, "group-by", "no ResultField is built in the execution path")
 	}
-}
-
-// levelOfValue: vroot is the local copy of an element of <level>.Values (valsF); returns the root object of <level>.
-func levelOfValue(vroot ssa.Value, valsF *types.Var) ssa.Value {
-	al, ok := vroot.(*ssa.Alloc)
-	if !ok {
-		return nil
-	}
-	stores, esc := cellStores(al)
-	if esc || len(stores) != 1 {
-		return nil
-	}
-	ld, ok := stores[0].Val.(*ssa.UnOp)
-	if !ok {
-		return nil
-	}
-	ia, ok := ld.X.(*ssa.IndexAddr)
-	if !ok {
-		return nil
-	}
-	p := path(ia.X)
-	if f := p.lastField(); f == nil || f != valsF {
-		return nil
-	}
-	return p.Root
 }
 
 // operandLoop: slice value v (in fn) is built by appending, for every element of the source slice (isSrc) in range order,
@@ -1546,8 +1563,58 @@ func keyInjRule(c *Ctx, rule string) {
 			c.r.check(!adjacent, rule, name+": separator", "column and value are separated in the hash input", "column and value are concatenated without a separator: (\"ab\",\"c\") and (\"a\",\"bc\") get the same index", c.w.ipos(call))
 		})
 	}
+	// --- streamed into a digest: d.WriteString(k); d.WriteString(v); d.Sum64() ---
+	for _, fn := range c.scope(gvi, 1) {
+		allInstrs(fn, func(i ssa.Instruction) {
+			sum, ok := i.(*ssa.Call)
+			if !ok || len(sum.Call.Args) == 0 {
+				return
+			}
+			sf := sum.Call.StaticCallee()
+			if sf == nil || sf.Signature.Recv() == nil || c.w.inModule(sf) || (sf.Name() != "Sum64" && sf.Name() != "Sum" && sf.Name() != "Sum32") {
+				return
+			}
+			recv := sum.Call.Args[0]
+			// the writes on the same digest that dominate the Sum, in execution order
+			var writes []*ssa.Call
+			allInstrs(fn, func(j ssa.Instruction) {
+				w, ok := j.(*ssa.Call)
+				if !ok || len(w.Call.Args) < 2 || w.Call.Args[0] != recv {
+					return
+				}
+				wf := w.Call.StaticCallee()
+				if wf == nil || (wf.Name() != "Write" && wf.Name() != "WriteString" && wf.Name() != "WriteByte") {
+					return
+				}
+				if w.Block() == sum.Block() || w.Block().Dominates(sum.Block()) {
+					writes = append(writes, w)
+				}
+			})
+			if len(writes) < 2 {
+				return
+			}
+			sort.SliceStable(writes, func(a, b int) bool {
+				if writes[a].Block() != writes[b].Block() {
+					return writes[a].Block().Dominates(writes[b].Block())
+				}
+				return pointOf(writes[a]).i < pointOf(writes[b]).i
+			})
+			found = true
+			adjacent := false
+			isPar := func(w *ssa.Call) bool {
+				_, ok := peelConv(w.Call.Args[1]).(*ssa.Parameter)
+				return ok
+			}
+			for k := 0; k+1 < len(writes); k++ {
+				if isPar(writes[k]) && isPar(writes[k+1]) {
+					adjacent = true
+				}
+			}
+			c.r.check(!adjacent, rule, name+": separator", "column and value are separated in what is written to the digest", "column and value are written to the hash one after the other without a separator: (\"ab\",\"c\") and (\"a\",\"bc\") get the same index", c.w.ipos(sum))
+		})
+	}
 	if !found {
-		c.r.ok(rule, name, "the hash input is not built by a shape this rule examines (append/concatenation chain or fixed buffer); C01.keyflow applies", c.w.pos(gvi.Pos()))
+		c.r.ok(rule, name, "the hash input is not built by a shape this rule examines (append/concatenation chain, fixed buffer or writes to a digest); C01.keyflow applies", c.w.pos(gvi.Pos()))
 	}
 }
 
